@@ -212,6 +212,7 @@ impl Exec {
                     if let Some(tr) = self.trace.as_mut() {
                         tr.push(format!("poll {}", self.tasks[i].name));
                     }
+                    net.begin_task_poll();
                     self.poll_task(i);
                 }
                 Choice::Net(m) => {
